@@ -99,12 +99,17 @@ func (d *Document) BlockStringValueContentBytes(ref int) []byte {
 	}
 
 	// find first non-whitespace-only line
-	firstLine := 0
+	firstLine := -1
 	for i, line := range lines {
 		if leadingWhitespaceCount(line) != len(line) {
 			firstLine = i
 			break
 		}
+	}
+
+	// every line is blank: all of them are removed, the value is the empty string
+	if firstLine == -1 {
+		return nil
 	}
 
 	// find last non-whitespace-only line
